@@ -80,7 +80,8 @@ def cumulative_shapes(t):
 
 
 def check_quantizer_boundaries(ctx, F):
-    targets = [b for b in F.bodies if b.promoted is None and b.file.endswith('model/quantize.rs') and '::tests::' not in b.defpath and b.dk in ('Fn', 'AssocFn')
+    # closures count as well: a cumulative that was moved into a local closure is still the same computation
+    targets = [b for b in F.bodies if b.promoted is None and b.file.endswith('model/quantize.rs') and '::tests::' not in b.defpath and b.dk in ('Fn', 'AssocFn', 'Closure')
                and any((rules.callee(t) or {}).get('name') == 'slack' for _, t in b.calls())]
     total = 0
     for b in targets:
